@@ -178,6 +178,7 @@ CHECKS["C03"] = dict(
     legs=[dict(name="matrix", test="^TestCoversMatrix$", kind="plain", quick=dict(n=1, procs=1, timeout=300), thorough=dict(n=1, procs=1, timeout=1200)),
           dict(name="deep", test="^TestCoversDeep$", quick=dict(n=40000, procs=2, timeout=300), thorough=dict(n=5000000, procs=6, timeout=3000)),
           dict(name="authorize", test="^TestAuthorize$", quick=dict(n=15000, procs=3, timeout=300), thorough=dict(n=4000000, procs=12, timeout=3000)),
+          dict(name="concurrent", test="^TestAuthorizeConcurrent$", kind="plain", quick=dict(n=6, procs=1, timeout=300), thorough=dict(n=300, procs=3, timeout=1800)),
           dict(name="entry-points", test="^TestEntryPoints$", kind="plain", quick=dict(n=1, procs=1, timeout=300), thorough=dict(n=1, procs=1, timeout=600))],
 )
 
@@ -198,6 +199,7 @@ CHECKS["C11"] = dict(
          "parent defect with a well-formed channel; distinct = distinct case value.",
     legs=[dict(name="keygen", test="^(TestProbeTTLUnderflow|TestKeygen)$", quick=dict(n=15000, procs=3, timeout=300), thorough=dict(n=4000000, procs=12, timeout=3000)),
           dict(name="history", test="^TestKeyHistory$", quick=dict(n=600, procs=3, timeout=300), thorough=dict(n=60000, procs=12, timeout=3000)),
+          dict(name="concurrent", test="^TestKeygenConcurrent$", kind="plain", quick=dict(n=6, procs=2, timeout=300), thorough=dict(n=240, procs=4, timeout=1800)),
           dict(name="extendable", test="^TestExtendableUnusable$", kind="plain", quick=dict(n=1, procs=1, timeout=300), thorough=dict(n=1, procs=1, timeout=300))],
 )
 
@@ -214,6 +216,7 @@ CHECKS["C12"] = dict(
     rule="rapid-generated (key, modification) pairs + enumerated single-bit flips; non-trivial = the modified string is still 32 valid characters; distinct = distinct case value.",
     legs=[dict(name="tamper", test="^TestTamper$", quick=dict(n=15000, procs=3, timeout=300), thorough=dict(n=4000000, procs=12, timeout=3000)),
           dict(name="issued-splice", test="^TestSpliceIssuedKeys$", kind="plain", quick=dict(n=200, procs=1, timeout=300), thorough=dict(n=5000, procs=2, timeout=900)),
+          dict(name="concurrent", test="^TestTamperWhileOthersAuthorize$", kind="plain", quick=dict(n=6, procs=2, timeout=300), thorough=dict(n=240, procs=4, timeout=1800)),
           dict(name="bitflips", test="^TestSingleBitFlips$", kind="plain", quick=dict(n=1, procs=1, timeout=300), thorough=dict(n=1, procs=1, timeout=300))],
 )
 
@@ -253,6 +256,7 @@ CHECKS["C07"] = dict(
                "share a wall-clock second, so replay is compared as a multiset. Excluded: will topics with a ttl option and ttl >= 2^32-1 (statement ambiguous / wire type).",
     rule="rapid-generated histories; non-trivial = a subscribe whose expected replay is non-empty and a strict subset of the stored messages; distinct = distinct case value.",
     legs=[dict(name="retain-replay", test="^TestRetainReplay$", quick=dict(n=700, procs=4, timeout=300), thorough=dict(n=40000, procs=14, batch=2000, timeout=2400)),
+          dict(name="concurrent-publishers", test="^TestConcurrentPublishers$", kind="plain", quick=dict(n=2, procs=1, timeout=300), thorough=dict(n=60, procs=3, timeout=1800)),
           dict(name="large-replay", test="^TestLargeReplay$", kind="plain", quick=dict(n=1, procs=1, timeout=300), thorough=dict(n=1, procs=1, timeout=300))],
 )
 
